@@ -85,7 +85,10 @@ for line in sys.stdin:
             rx, tx = hp.resolve(int(tok[3]))
             print("ok %d %d" % (rx, tx))
         elif tok[0] == "hop.pypnm":
-            print(gsm_shared.HoppingParams(1, 0, [(0, 0)] * int(tok[1]))._pnm)
+            hp = gsm_shared.HoppingParams(1, 0, [(0, 0)] * int(tok[1]))
+            # the precomputed 2^NBIN - 1 mask is a private attribute: where this tree has no such attribute the question
+            # cannot be put (the mask's effect is still compared through resolve())
+            print(hp._pnm if hasattr(hp, "_pnm") else "skip")
         elif tok[0] == "hop.freq":
             trx = new_trx(opt(tok[6]), opt(tok[7]))
             ini = "-"
